@@ -144,7 +144,8 @@ def step (s : St) (toks : List String) : St × String :=
       | none => (s, "bad-op")
       | some p =>
         if sg ≥ s.n then (s, "bad-op") else
-        let mk (i v : Nat) : Utxo := { id := 1000 + 10 * q + i, value := v, wit := true, p2sh := false, hash := [], index := i }
+        let mk (i v : Nat) : Utxo := { id := 1000 + 10 * q + i, value := v, wit := true, p2sh := false,
+                                       hash := List.replicate 30 0 ++ [(q / 256).toUInt8, (q % 256).toUInt8], index := i }   -- placeholder until settxid
         match multiSign s.m s.store p sg (op == "sign") mk with
         | .errSigned => (s, "err:signed")
         | .errEnough => (s, "err:enough")
